@@ -65,7 +65,7 @@ const histRule = "adaptive random histories of work-tree edits and goit invocati
 	"a case is distinct by its recorded script"
 
 func init() {
-	checks["C03"] = histCheck("C03", []string{"C03.inv_run", "C03.inv_step", "C03.objects_monotone", "C03.put_monotone", "C03.puts_monotone", "C03.put_present", "C03.name_is_hash", "C03.branch_target_present", "C10.add_invalid", "C19.get_returns_requested"}, histRule+"; hostile stream: ids of blobs/trees given to update-ref, names with '/', '..', resets to zero-id reflog entries",
+	checks["C03"] = histCheck("C03", []string{"C03.inv_run", "C03.inv_step", "C03.objects_monotone", "C03.world_objects_monotone", "C03.world_history_objects_monotone", "C03.put_monotone", "C03.puts_monotone", "C03.put_present", "C03.name_is_hash", "C03.branch_target_present", "C10.add_invalid", "C19.get_returns_requested"}, histRule+"; hostile stream: ids of blobs/trees given to update-ref, names with '/', '..', resets to zero-id reflog entries",
 		func(ctx *Ctx) *HistCfg {
 			return &HistCfg{Prop: "C03", Cases: tierN(ctx, 150, 1500), MinSteps: 10, MaxSteps: 40,
 				W:       weights(Weights{"update-ref": 5, "branch": 4, "branch-rename": 3, "reset": 6, "junk": 6, "switch-c": 2, "commit-inject": 4, "fd-swap": 4, "restore": 6}),
@@ -169,7 +169,7 @@ func init() {
 				Oracles:  []HistOracle{orC12, orC14, orC01}, ReadBackCommit: true,
 				Messages: genMessage}
 		})
-	checks["C11"] = histCheck("C11", []string{"C11.parseLine_format", "C11.parse_append", "C11.parseLines_snoc", "C11.get_agrees_with_listing", "C11.get_append_zero", "C11.get_append_succ", "C11.get_out_of_range", "C11.step_appends", "C11.run_prefix", "C11.shift", "C11.head0_commit", "C11.head0_switch", "C11.head0_reset", "C11.reset_refused"}, histRule+"; `reflog` is run after every commit/switch/reset/rename and compared with the listing before",
+	checks["C11"] = histCheck("C11", []string{"C11.parseLine_format", "C11.world_log_prefix", "C11.world_history_log_prefix", "C11.parse_append", "C11.parseLines_snoc", "C11.get_agrees_with_listing", "C11.get_append_zero", "C11.get_append_succ", "C11.get_out_of_range", "C11.step_appends", "C11.run_prefix", "C11.shift", "C11.head0_commit", "C11.head0_switch", "C11.head0_reset", "C11.reset_refused"}, histRule+"; `reflog` is run after every commit/switch/reset/rename and compared with the listing before",
 		func(ctx *Ctx) *HistCfg {
 			return &HistCfg{Prop: "C11", Cases: tierN(ctx, 200, 2000), MinSteps: 10, MaxSteps: 35, TZs: []int{0, 19800, -12600, 3600},
 				W: weights(Weights{"commit": 18, "switch": 6, "switch-c": 4, "reset": 8, "branch-rename": 3, "branch-delete": 2, "branch": 3, "reflog": 4,
